@@ -71,12 +71,14 @@ func (s *ShardedIndex) Size() int {
 func (s *ShardedIndex) Iterator(reverse bool) *IndexIterator {
 	iters := make([]iterator, 0, s.cap)
 	for i := 0; i < s.cap; i++ {
-		s.indexLock[i].RLock()
+		// 创建底层迭代器可能修改索引自身 (B 树的 Clone 会更新源树的写时复制上下文),
+		// 因此必须持有分片的写锁
+		s.indexLock[i].Lock()
 		it := s.index[i].iterator(reverse)
 		if it.valid() {
 			iters = append(iters, it)
 		}
-		s.indexLock[i].RUnlock()
+		s.indexLock[i].Unlock()
 	}
 	return newIndexIterator(iters, reverse)
 }
